@@ -15,12 +15,26 @@ structure PBB.WF (p : PBB) : Prop where
   black : p.black = p.bp ||| p.bn ||| p.bb ||| p.br ||| p.bq ||| p.bk
   all : p.all = p.white ||| p.black
 
-/-- a castling right that is still available means king and rook stand on their home squares -/
+/-- a castling right that is still available means the rook stands on its home square.
+
+    (The king is not mentioned here but in `KingsHome`: the invariant has to survive *every* generated move,
+    and pseudo-legal generation includes capturing a king that was left in check — after
+    `4k2r/8/8/8/8/8/8/4R1K1 w k -`, `Re1xe8` the right `k` is still recorded although e8 holds a white rook.
+    So "the king stands on e8" is not an invariant of `make_move` over `get_all_moves`; "no king of that
+    colour stands anywhere else" is.) -/
 def RightsConsistent (b : Board) : Prop :=
-  (b.rights.wk = true → b.pieceAt ⟨0, 4⟩ = some ⟨.king, .white⟩ ∧ b.pieceAt ⟨0, 7⟩ = some ⟨.rook, .white⟩) ∧
-  (b.rights.wq = true → b.pieceAt ⟨0, 4⟩ = some ⟨.king, .white⟩ ∧ b.pieceAt ⟨0, 0⟩ = some ⟨.rook, .white⟩) ∧
-  (b.rights.bk = true → b.pieceAt ⟨7, 4⟩ = some ⟨.king, .black⟩ ∧ b.pieceAt ⟨7, 7⟩ = some ⟨.rook, .black⟩) ∧
-  (b.rights.bq = true → b.pieceAt ⟨7, 4⟩ = some ⟨.king, .black⟩ ∧ b.pieceAt ⟨7, 0⟩ = some ⟨.rook, .black⟩)
+  (b.rights.wk = true → b.pieceAt ⟨0, 7⟩ = some ⟨.rook, .white⟩) ∧
+  (b.rights.wq = true → b.pieceAt ⟨0, 0⟩ = some ⟨.rook, .white⟩) ∧
+  (b.rights.bk = true → b.pieceAt ⟨7, 7⟩ = some ⟨.rook, .black⟩) ∧
+  (b.rights.bq = true → b.pieceAt ⟨7, 0⟩ = some ⟨.rook, .black⟩)
+
+/-- while a side still has a castling right, none of its kings stands off the home square
+    (together with "that side has a king" — true of every legal position — this is "the king is on e1 / e8") -/
+def KingsHome (b : Board) : Prop :=
+  ((b.rights.wk = true ∨ b.rights.wq = true) →
+    ∀ s : Square, s.rank < 8 → s.file < 8 → b.pieceAt s = some ⟨.king, .white⟩ → s = ⟨0, 4⟩) ∧
+  ((b.rights.bk = true ∨ b.rights.bq = true) →
+    ∀ s : Square, s.rank < 8 → s.file < 8 → b.pieceAt s = some ⟨.king, .black⟩ → s = ⟨7, 4⟩)
 
 /-- the en-passant file is the one recorded by the top undo record, the pawn that made the double
     step stands next to the en-passant rank and the square it skipped is empty -/
@@ -35,6 +49,7 @@ structure WF (b : Board) : Prop where
   bbs : PBB.WF b.bbs
   hist : b.history ≠ []
   rights : RightsConsistent b
+  kings : KingsHome b
   ep : EpConsistent b
 
 end RCE.Proofs.BoardWF
